@@ -792,6 +792,41 @@ func extractAll() {
 		}
 		addBool("eioCloseReportedFirst", first("engine.io/client_socket.go", "clientSocket") && first("engine.io/server_socket.go", "serverSocket"), "engine.io/client_socket.go")
 	}
+	// ---- the Engine.IO sockets process a transport's close on a goroutine of their own: the callback can be entered with transportMu
+	// held (a write that fails inside the upgrade's hand-over), and TransportName() takes that lock
+	{
+		async := func(rel, recv string) bool {
+			fd := findFunc(load(rel), recv, "onTransportClose")
+			if fd == nil {
+				return false
+			}
+			inGo, outside := false, false
+			var walk func(n ast.Node, in bool)
+			walk = func(n ast.Node, in bool) {
+				ast.Inspect(n, func(x ast.Node) bool {
+					switch v := x.(type) {
+					case *ast.GoStmt:
+						if fl, ok := v.Call.Fun.(*ast.FuncLit); ok && !in {
+							walk(fl.Body, true)
+							return false
+						}
+					case *ast.CallExpr:
+						if se, ok := v.Fun.(*ast.SelectorExpr); ok && se.Sel.Name == "TransportName" {
+							if in {
+								inGo = true
+							} else {
+								outside = true
+							}
+						}
+					}
+					return true
+				})
+			}
+			walk(fd.Body, false)
+			return inGo && !outside
+		}
+		addBool("eioTransportCloseAsync", async("engine.io/server_socket.go", "serverSocket") && async("engine.io/client_socket.go", "clientSocket"), "engine.io/server_socket.go")
+	}
 	// ---- Socket.IO packet types
 	{
 		p := "parser/packet.go"
